@@ -231,7 +231,14 @@ fn check(st: &ChainSt, added: &[(String, Vec<u8>)]) -> (Option<(String, String)>
                     None => "added-headers-order".to_string(),
                 }
             } else {
-                // anything else about the head (originals, framing, Host, request line) is C02's / C13's
+                // anything else about the head (originals, framing, Host, request line) is C02's / C13's -
+                // and C02 quantifies over requests with at most one framing header: with both present
+                // (an original Content-Length next to an added Transfer-Encoding, ...) nothing is said
+                // about which of them reaches the wire
+                let framing = added_lc.iter().chain(origs.iter()).filter(|(n, _)| n == "content-length" || n == "transfer-encoding").count();
+                if framing > 1 {
+                    return None;
+                }
                 format!("out-of-scope:{}", k.trim_start_matches("C02:"))
             };
             return Some((if class.starts_with("out-of-scope:") { format!("out-of-scope:C16:{}", class.trim_start_matches("out-of-scope:")) } else { format!("C16:{}", class) }, format!("redirect depth {}: added {:?}: {} ; head: {:?}", st.hop, added.iter().map(|(k, v)| format!("{}: {}", k, show(v))).collect::<Vec<_>>(), w, show(&a.bytes))));
